@@ -123,7 +123,7 @@ CLAIMS.update({
  'C08': dict(
     text='Proof (Coq) + correspondence. Theorems over the normalisation chain and the row tail of the materializer: a predicate-object map is placed in exactly its own and the subject map\'s graphs '
          '(pom_gets_exactly_its_graphs), the default graph iff none or rml:defaultGraph (default_graph_iff_none, default_graph_has_empty_component), class statements follow the subject graphs, N-TRIPLES output is the '
-         'graph-less projection (ntriples_is_graphless). Correspondence: 0-3 constant / template / reference graph maps, NULL graph values, both formats, against the Engine model and the Spec.',
+         'graph-less projection (ntriples_is_graphless; rules_ntriples_is_projection_of_nquads for the generation rules on every document; engine_ntriples_is_projection_of_nquads for the engine on documents of constant / reference / template maps). Correspondence: 0-3 constant / template / reference graph maps, NULL graph values, both formats, against the Engine model and the Spec.',
     note='Known finding shared with C14: function-valued graph map under N-TRIPLES.', technique='Coq proof (graph placement) + ' + CORR, ref='0.3 C08'),
  'C09': dict(
     text='Proof (Coq) + correspondence. The model\'s abstract syntax identifies vocabularies and constant shortcuts; inside it the three factorings the property names are theorems on the normalisation chain, for every '
